@@ -299,7 +299,7 @@ def r191(ctx, rep, f, ev, cg, reach):
         src = [show_origin(b.origin(t["args"][0])) for bb, t in its]
         ad = [cal.split("::")[-1] for bb, t, cal, c in b.calls() if cal and cal.split("::")[-1] in ADAPT]
         rows = [s for s in format_sites(f, b) if b.on_cycle(s["bb"]) and (s["template"] or "").strip() not in ("",)]
-        ok = len(its) == 2 and all(s == "arg1" for s in src) and not ad
+        ok = len(its) in (1, 2) and all(s == "arg1" for s in src) and not ad    # one loop with the style test inside, or one loop per style
         rep.check(ok, "R19.1", "R19.1|rdh_view|loop", "view rdh iterates over the whole batch in order (both styles)", rv, "loops over %s adaptors %s" % (src, ad))
     else:
         rep.missing("R19.1", rv)
@@ -637,28 +637,33 @@ def r195(ctx, rep, f, ev, cg, reach):
         if s.problems:
             rep.bad("R19.5", "R19.5|%s|unsupported" % p.split("::")[-1], "format constructs that could not be analysed: %s" % s.problems[:3], p)
     # rdh view rows (inside the loops; the column header lines are different helper functions and carry no data)
+    # decided per style with one batch element (RDHV, PAY, POS) substituted for the iterator's item: besides the header
+    # one row is written per element, showing the element's own offset (upper hex) followed by its own RDH
     rv = V + "rdh_view::rdh_view"
     if rv in f.fns:
-        b = cg.body(rv)
-        s = Sigs(f, b)
-        br = _branches(b, 2)
-        ok = len(br) == 1
-        plain = styled = None
-        if ok:
-            cyc = set(x for x in b.live_blocks() if b.on_cycle(x))
-            plain = s.top(_dominated(b, br[0][1]) & cyc)
-            styled = s.top(_dominated(b, br[0][2]) & cyc)
-            ok = plain == styled and len(plain) == 1 and plain[0] == (("arg", ">8X", "arg1.2") if False else plain[0])
-            args = [t for t in plain[0] if t[0] == "arg"] if plain else []
-            ok = ok and len(args) == 2 and args[0][1] == ">8X" and args[1][1] == "" and args[0][2] != args[1][2]
+        rows = {}
+        for plain in (True, False):
+            ev.call_hooks = [(lambda fn_, r_: (r_ or fn_).endswith("Iterator>::next") or fn_.endswith("Iterator::next"),
+                              lambda n, a: Agg("core::option::Option", "Some", {"0": (Sym("RDHV"), Sym("PAY"), Sym("POS"))}))]
+            ev.watch = lambda c: c.endswith("::write_fmt")
+            try:
+                recs = ev.collect_ifs(rv, [Sym("BATCH"), Cond("true" if plain else "false")])
+                live = [o["args"][1] for o in recs if "call" in o and not o.get("closure") and not any(g in ("false", "not true") for g in o["guard"])]
+                rows[plain] = [k for k in live if "sym(POS)" in k or "sym(RDHV" in k or "sym(PAY)" in k]
+            except Unsupported as e:
+                rows[plain] = ["unevaluable: %s" % e]
+            finally:
+                ev.call_hooks = []
+                ev.watch = None
+
+        def row_ok(k):
+            i_pos, i_rdh = k.find("new_upper_hex(sym(POS))"), k.find("sym(RDHV")
+            return k.count("sym(POS)") == 1 and i_pos >= 0 and i_rdh > i_pos and "sym(PAY)" not in k
+        ok = all(len(rows[p_]) == 1 and row_ok(rows[p_][0]) for p_ in rows)
         rep.check(ok, "R19.5", "R19.5|rdh_view|row", "view rdh row: `{offset:>8X}: {rdh}` in both styles", rv,
-                  "view rdh rows: unstyled %s styled %s" % ([render(x) for x in plain or []], [render(x) for x in styled or []]))
-        # the row's values are the tuple's own members
-        if plain:
-            its = [(bb, t) for bb, t, cal, c in b.calls() if cal and cal.endswith("Iterator>::next")]
-            a = [t for t in plain[0] if t[0] == "arg"]
-            ok2 = all("next(" in x[2] for x in a) and a[0][2].endswith(".2") and a[1][2].endswith(".0")
-            rep.check(ok2, "R19.5", "R19.5|rdh_view|row-values", "the row shows the element's own offset (.2) and RDH (.0)", rv, "row values: %s" % [x[2][-60:] for x in a])
+                  "view rdh rows: unstyled %s styled %s" % ([k[:200] for k in rows[True]], [k[:200] for k in rows[False]]))
+        rep.check(ok, "R19.5", "R19.5|rdh_view|row-values", "the row shows the element's own offset (.2) and RDH (.0)", rv,
+                  "row values are not the element's own offset followed by its own RDH")
     display_vs_styled(ctx, rep, f, cg)
 
 
